@@ -10,10 +10,10 @@ INV = ["RungFilledByDistinctTrials", "ResumeOnlyAfterRungComplete", "PromotedAre
 FLAG_INV = {
     "slot_handed_twice": "RungFilledByDistinctTrials", "rung_overfilled": "RungFilledByDistinctTrials", "trial_twice_in_rung": "RungFilledByDistinctTrials",
     "wrong_level": "RungFilledByDistinctTrials", "new_trial_in_upper_rung": "RungFilledByDistinctTrials",
-    "resume_in_lowest_rung": "RungFilledByDistinctTrials", "job_outside_current_rung": "RungFilledByDistinctTrials",
+    "resume_in_lowest_rung": "RungFilledByDistinctTrials", "job_outside_current_rung": "RungFilledByDistinctTrials", "resume_outside_first_bracket": "RungFilledByDistinctTrials",
     "resume_before_rung_complete": "ResumeOnlyAfterRungComplete", "resume_not_paused": "ResumeOnlyAfterRungComplete",
     "promoted_not_top": "PromotedAreTopK", "promoted_from_elsewhere": "PromotedAreTopK",
-    "scheduler_raised": "NextJobNeverBlocks", "new_bracket_while_free": "NextJobNeverBlocks",
+    "scheduler_raised": "NextJobNeverBlocks", "suggest_refused": "NextJobNeverBlocks", "new_bracket_while_free": "NextJobNeverBlocks",
     "pause_at_milestone": "PauseAtMilestone", "decide_off_milestone": "PauseAtMilestone",
     "wrong_max_resource_attr": "PauseAtMilestone", "trial_id_sequence": "IdsInSequence",
     "removable_but_resumable": "RemovableOnlyNonPromoted", "resume_after_removable": "RemovableOnlyNonPromoted",
@@ -25,11 +25,14 @@ SYSTEMS = {
     "hb421": [[(4, 1), (2, 2), (1, 4)], [(3, 2), (1, 4)], [(3, 4)]],
     "cust": [[(3, 1), (2, 2), (1, 3)], [(2, 2), (1, 3)]],
     "sh22": [[(2, 1), (1, 2)]],
+    "de31": [[(3, 1), (1, 3)], [(1, 3)]],
+    "de321": [[(3, 1), (2, 2), (1, 4)], [(2, 2), (1, 4)], [(1, 4)]],
+    "de31one": [[(3, 1), (1, 3)]],
 }
 
 
 def base(**kw):
-    c = dict(NT=5, SysName="hb31", IsMin=True, MRA=True, Vals={0, 1, 2}, Faults=True, MaxRun=2, MaxFaults=1)
+    c = dict(NT=5, SysName="hb31", IsMin=True, MRA=True, Vals={0, 1, 2}, Faults=True, MaxRun=2, MaxFaults=1, DE=False, PR=True)
     c.update(kw)
     return c
 
